@@ -365,7 +365,8 @@ def run_task(task):
             if mode == "store":
                 ext = e.get("extension") if e["kind"] == "value" else None
                 store = MemoryStore() if cfg == "mem" else FileStore(os.path.join(tmp, "st-" + rnd))
-                skey = "res/x." + (ext or "dat")
+                # the value is serialised in the format of the key's extension (as for recipes, C08): no extension in the query -> none in the key
+                skey = "res/x." + ext if ext else "res/x"
                 ev = evaluate_once(q, store, skey)
                 try:
                     kept = project(store.get_metadata(skey))
